@@ -9,7 +9,7 @@ open RichModel RichModel.AnsiTerm
 /-! ## `Segment.remove_color` -/
 
 /-- `style.without_color` as a new object (empty cache). -/
-def colourless (s : Style) : StyleObj := { style := Style.withoutColor Variant.fixed s, ansi := none }
+def colourless (s : Style) : StyleObj := { style := Style.withoutColor StyleVariant.fixed s, ansi := none }
 
 /-- Pointwise relation between two lists. -/
 inductive All2 {α β : Type} (R : α → β → Prop) : List α → List β → Prop
@@ -133,7 +133,7 @@ theorem removeColorLoop_spec (heap : Heap) (hwf : ∀ o ∈ heap, StyleWF o.styl
 /-- Under NO_COLOR the colourless copy of an equal style must look the same as the style itself. -/
 theorem expected_withoutColor (cc : Cfg) (P : Palettes) (cfg : Config) (hnc : cfg.noColor = true)
     (k s : Style) (hk : k.isNull = false) (he : Style.eq k s = true) :
-    expected cc P cfg (some (Style.withoutColor Variant.fixed k)) = expected cc P cfg (some s) := by
+    expected cc P cfg (some (Style.withoutColor StyleVariant.fixed k)) = expected cc P cfg (some s) := by
   simp only [Style.eq, decide_eq_true_eq] at he
   obtain ⟨_, _, h3, h4, h5⟩ := he
   unfold expected
@@ -174,7 +174,7 @@ theorem expectedCells_img (cc : Cfg) (P : Palettes) (cfg : Config) (hnc : cfg.no
           simp [segStyle, hs, expected_none]
         · simp only [hn] at hs
           obtain ⟨j, k, h1, h2, h3, h4⟩ := hs
-          have : segStyle tmp seg' = some (Style.withoutColor Variant.fixed k) := by simp [segStyle, h1, h2, colourless]
+          have : segStyle tmp seg' = some (Style.withoutColor StyleVariant.fixed k) := by simp [segStyle, h1, h2, colourless]
           rw [this]
           exact expected_withoutColor cc P cfg hnc k s h3 h4
     by_cases hv : segVisible cfg seg = true
@@ -204,7 +204,7 @@ theorem refsOK_img {heap tmp : Heap} {segs segs' : List Seg} (h : All2 (Img heap
           exact hl
     · exact ih s hs i hi
 
-theorem styleWF_withoutColor (s : Style) (hn : s.isNull = false) : StyleWF (Style.withoutColor Variant.fixed s) := by
+theorem styleWF_withoutColor (s : Style) (hn : s.isNull = false) : StyleWF (Style.withoutColor StyleVariant.fixed s) := by
   constructor <;> simp [Style.withoutColor, hn]
 
 theorem loopInv_tmp (cc : Cfg) (P : Palettes) (cfg : Config) (keys : List Style) (tmp : Heap) (hk : KInv keys tmp) :
@@ -278,7 +278,7 @@ def specOps (cc : Cfg) (P : Palettes) : List Style → List Op → List (List Ce
     | none => []
   | styles, .updateLink i link :: rest =>
     match styles[i]? with
-    | some s => specOps cc P (styles ++ [Style.updateLink Variant.fixed s link]) rest
+    | some s => specOps cc P (styles ++ [Style.updateLink StyleVariant.fixed s link]) rest
     | none => []
   | styles, .render cfg segs :: rest =>
     expectedCells cc P cfg (freshHeap styles) segs :: specOps cc P styles rest
@@ -316,10 +316,10 @@ theorem objOK_copy (cc : Cfg) (P : Palettes) (o : StyleObj) (ho : ObjOK cc P o) 
     exact (computeCodes_congr cc P o.style { o.style with isNull := false } cs rfl rfl rfl rfl).trans (ho.2 cs codes hc)
 
 theorem objOK_updateLink (cc : Cfg) (P : Palettes) (o : StyleObj) (ho : ObjOK cc P o) (link : Option (List Char)) :
-    ObjOK cc P { style := Style.updateLink Variant.fixed o.style link, ansi := o.ansi } := by
+    ObjOK cc P { style := Style.updateLink StyleVariant.fixed o.style link, ansi := o.ansi } := by
   refine ⟨⟨ho.1.color, ho.1.bgcolor, by intro h; cases h⟩, ?_⟩
   intro cs codes hc
-  exact (computeCodes_congr cc P o.style (Style.updateLink Variant.fixed o.style link) cs rfl rfl rfl rfl).trans (ho.2 cs codes hc)
+  exact (computeCodes_congr cc P o.style (Style.updateLink StyleVariant.fixed o.style link) cs rfl rfl rfl rfl).trans (ho.2 cs codes hc)
 
 theorem heapOK_append (cc : Cfg) (P : Palettes) (heap : Heap) (o : StyleObj) (h : HeapOK cc P heap) (ho : ObjOK cc P o) :
     HeapOK cc P (heap ++ [o]) := by
